@@ -25,6 +25,7 @@ type event struct {
 	K   string       `json:"k"`
 	V   string       `json:"v"`
 	OK  bool         `json:"ok"`
+	G   int          `json:"g"`   // part number within a merged change
 	Ops []event      `json:"ops"` // merged change
 }
 
@@ -459,18 +460,36 @@ func applyOp(w ingest.MutableWorld, e event, copies *[]ingest.Feature) (err erro
 		case "rmtag":
 			err = w.RemoveTag(obs.ID(e.ID), e.K)
 		case "merged":
+			// consecutive sub-changes with the same part number g form one part with several items
 			var m ingest.MergedChange
-			for _, sub := range e.Ops {
-				switch sub.Op {
-				case "add":
-					f := obs.ToIngest(sub.ID, sub.F)
-					*copies = append(*copies, f)
-					m = append(m, &ingest.AddFeatures{f})
-				case "addtag":
-					m = append(m, ingest.AddTags{{ID: obs.ID(sub.ID), Tag: b6.Tag{Key: sub.K, Value: b6.NewStringExpression(sub.V)}}})
-				case "rmtag":
-					m = append(m, ingest.RemoveTags{{ID: obs.ID(sub.ID), Key: sub.K}})
+			for i := 0; i < len(e.Ops); {
+				j := i
+				for j < len(e.Ops) && e.Ops[j].G == e.Ops[i].G && e.Ops[j].Op == e.Ops[i].Op {
+					j++
 				}
+				switch e.Ops[i].Op {
+				case "add":
+					part := ingest.AddFeatures{}
+					for _, sub := range e.Ops[i:j] {
+						f := obs.ToIngest(sub.ID, sub.F)
+						*copies = append(*copies, f)
+						part = append(part, f)
+					}
+					m = append(m, &part)
+				case "addtag":
+					part := ingest.AddTags{}
+					for _, sub := range e.Ops[i:j] {
+						part = append(part, ingest.AddTag{ID: obs.ID(sub.ID), Tag: b6.Tag{Key: sub.K, Value: b6.NewStringExpression(sub.V)}})
+					}
+					m = append(m, part)
+				case "rmtag":
+					part := ingest.RemoveTags{}
+					for _, sub := range e.Ops[i:j] {
+						part = append(part, ingest.RemoveTag{ID: obs.ID(sub.ID), Key: sub.K})
+					}
+					m = append(m, part)
+				}
+				i = j
 			}
 			_, err = m.Apply(w)
 		}
